@@ -32,3 +32,24 @@ package alert
 //@             ==> result.EndsAt == younger(a, o).EndsAt
 //@   ensures [inputs-untouched] a.StartsAt == old(a.StartsAt) && a.EndsAt == old(a.EndsAt) && o.StartsAt == old(o.StartsAt) && o.EndsAt == old(o.EndsAt)
 //@   assigns nothing
+
+// ---- C13: which alerts are valid. Validity of one label name / value is string level (uninterpreted predicates);
+// an alert is valid exactly when it has a start, no end before its start, at least one label, and only valid names
+// and values among its labels and annotations.
+//@ uf nameOK(model.LabelName) bool
+//@ uf valueOK(model.LabelValue) bool
+//@ spec lsOK(ls model.LabelSet) bool = forall ln model.LabelName :: ln in ls ==> nameOK(ln) && valueOK(ls[ln])
+//@ func validateLs
+//@   props C13
+//@   after call IsValidLabelName assume res0 == nameOK(arg0)
+//@   after call LabelValue).IsValid assume res0 == valueOK(arg0)
+//@   ensures [valid-iff] (result == nil) == lsOK(ls)
+//@   loop 1 invariant forall ln model.LabelName :: ln in visited && ln in ls ==> nameOK(ln) && valueOK(ls[ln])
+//@   loop 1 invariant dom(ls) == rangedom
+//@   assigns nothing
+//@   noeffect IsValidLabelName LabelValue).IsValid
+//@ func (*Alert).Validate
+//@   props C13
+//@   requires a != nil
+//@   ensures [valid-iff] (result == nil) == (a.StartsAt != 0 && (a.EndsAt == 0 || a.EndsAt >= a.StartsAt) && len(a.Labels) > 0 && lsOK(a.Labels) && lsOK(a.Annotations))
+//@   assigns nothing
